@@ -235,12 +235,17 @@ PROPS = {
     },
     "C03": {
         "pkg": "./ipam/", "test": "TestVerif_Ipam", "n_quick": 400, "n_thorough": 12000, "env": {"VERIF_PROP": "C03"},
+        "runs": [{"pkg": "./ipam/", "test": "TestVerif_Ipam", "n_quick": 400, "n_thorough": 12000, "env": {"VERIF_PROP": "C03"}},
+                 {"pkg": "./svc/", "test": "TestVerif_Svc", "n_quick": 200, "n_thorough": 6000, "env": {"VERIF_PROP": "C03"}}],
         "rule": "1/4 binding passes, 1/4 trimming of one interface (releaseUnUsedIP with 0..8 to delete), 1/2 Reconcile histories as for C02 with pod deletions followed or not by the daemon's `deleted` report, "
                 "reports that arrive late or for another uid, NodeRuntime unreadable, controller restarts and pool trimming. Clauses: 301 a binding is kept unless pod gone + report (or no uid) at the time of the pass, "
                 "302 it is dropped when they hold and the pass succeeded, 303 every UnAssign / Detach / Delete call is judged against the owners before the pass and the bindings after it, 304 trimming keeps owners. "
+                "A second harness covers the node agent's side: histories on the real networkService (as C04) in which pods are replaced by a new instance of the same name (new uid) before the DEL of the old "
+                "sandbox arrives; clause 351: the release reaches the interface layer (which reports the teardown to NodeRuntime) under the uid stored with the allocation. "
                 "non-trivial = a bound address whose pod is gone was seen by a pass; distinct = distinct input vectors",
         "trusted": ["as C02"],
-        "modelled": ["the daemon's side (who writes `deleted` and when: pkg/eni/crdv2.go, daemon/daemon.go:661-715) is represented by scripted NodeRuntime updates: the third sentence of the property is not decided here",
+        "modelled": ["in the controller histories the daemon's reports are scripted NodeRuntime updates; the daemon's side is checked separately up to the interface layer's Release call (uid attribution, clause 351): "
+                     "the flush to NodeRuntime (pkg/eni/crdv2.go:444-491) and the daemon's re-check of vanished pods (daemon.go:661-715) are not driven",
                      "an address that vanished in the cloud before the pass may leave the record (drift exemption gone_of)"],
         "assumptions": [],
         "level_text": "Theorems: the release pass changes an entry only by clearing its owner, only when the runtime object was readable, the pod is absent and (no uid recorded or final report = deleted); under those "
@@ -869,6 +874,8 @@ def sig_C02(ins, outs, extra=""):
 
 def sig_C03(ins, outs, extra=""):
     code, idx = _why(extra)
+    if _ipam_kind(ins) == 9:
+        return "C03:daemon:clause%d" % _svc_why(extra)
     return "C03:kind%d:clause%d" % (_ipam_kind(ins), code)
 
 
@@ -945,6 +952,8 @@ def nt_C02(ins, outs):
 
 
 def nt_C03(ins, outs):
+    if ins and int(ins[0]) == 9:
+        return len(outs) > 10
     return _ipam_nt(ins, outs)
 
 
@@ -982,7 +991,11 @@ def dist_C02(cases):
 
 
 def dist_C03(cases):
-    return _dist_ipam(cases)
+    ipam = [c for c in cases if not (c[1] and int(c[1][0]) == 9)]
+    svc = [(cid, ins[1:], outs) for cid, ins, outs in cases if ins and int(ins[0]) == 9]
+    d = _dist_ipam(ipam)
+    d["daemon_histories"] = _dist_svc(svc) if svc else {}
+    return d
 
 
 def dist_C08(cases):
